@@ -55,7 +55,9 @@ def run_mc(name, workdir, level=None, timeout=3000, simulate=None):
     wd = os.path.join(workdir, "mc_" + name)
     shutil.copytree(src, wd)
     cfg = "MC_%s.cfg" % name
-    if level is not None:
+    if name == "coop" and os.environ.get("VERIF_TIER", "") != "thorough" and level != "full":
+        cfg = "MC_coop2.cfg"
+    if level is not None and level != "full":
         p = os.path.join(wd, cfg)
         txt = open(p).read()
         txt = re.sub(r"MaxLevel\s*=\s*\d+", "MaxLevel = %d" % level, txt)
